@@ -572,12 +572,10 @@ func (m *Manager) HandleStreamData(streamID uint64, flags uint8, data []byte) er
 		return fmt.Errorf("unknown stream %d", streamID)
 	}
 
-	// Handle FIN flags
-	if flags&protocol.FlagFinWrite != 0 {
-		stream.HandleRemoteFinWrite()
-	}
-	verifhook.At("stream.data.mid", m, streamID, flags)
-
+	// Deliver the payload before the FIN flag is applied: a frame may carry
+	// data together with FIN_WRITE, and a reader that is woken by the
+	// half-close must still find that data in the buffer (otherwise it would
+	// see EOF and the last chunk would be lost).
 	if len(data) > 0 {
 		if err := stream.PushData(data); err != nil {
 			return err
@@ -586,6 +584,12 @@ func (m *Manager) HandleStreamData(streamID uint64, flags uint8, data []byte) er
 		if m.onStreamData != nil {
 			m.onStreamData(stream, data)
 		}
+	}
+	verifhook.At("stream.data.mid", m, streamID, flags)
+
+	// Handle FIN flags
+	if flags&protocol.FlagFinWrite != 0 {
+		stream.HandleRemoteFinWrite()
 	}
 
 	return nil
